@@ -3,16 +3,24 @@ import vlib, tabgen, sim_common as sc
 
 COQ_TARGETS = ["Props/Properties_C13.vo"]
 META = dict(
-    text="proof (partial): Coq theorems over a model of the consent-expiry tick and keepalive re-arming arithmetic of conncheck.c whose constants are "
-         "read from agent/agent-priv.h and whose modelled statements are checked to be present in the source on every run: for every "
-         "sequence of dispatch latencies the self re-arming tick announces FAILED strictly after last_answer + 30 s and at most the dispatch latency later, never "
-         "earlier; consent checks are re-armed 4..6 s ahead; the send gate equals the consent flag. Session-level behaviour (which answers refresh "
-         "consent, 403 handling and generation, the gate's GError, silence bound on the selected pair over idle sessions of several hundred "
-         "seconds) is NOT proved: real agents run in the deterministic simulator over blackout start/duration/direction, revocation "
-         "moment (before selection, during checks, READY) and idle sessions, with the expiry interval of the theorem, the 403 rules and the keepalive period as oracles.",
-    note="trusted: Coq kernel, the text extractor, sim.c. Partial: session level is counterexample search.",
-    technique="Coq proof of consent-expiry detection bounds over all dispatch latencies (constants regenerated from source) + deterministic simulation with timing oracles")
-FINISH = dict(level="proof", trusted=["lib/tabgen.py::consent_tables (constants + statement shape check)", "harness/sim.c virtual clock", "python timing oracles"],
+    text="Coq theorems (Props/Properties_C13.v, 24) over (a) the consent-expiry tick and keepalive re-arming arithmetic of conncheck.c (constants read from "
+         "agent/agent-priv.h): for every sequence of dispatch latencies FAILED is announced strictly after last_answer + 30 s and at most the dispatch latency "
+         "later, never earlier; consent checks are re-armed 4..6 s ahead; and (b) a session model of one selected pair (coq/Agent/ConsentSessionModel.v: "
+         "keepalive tick with the component's StunAgent transaction table and the pair's own keepalive transaction, consent timer, matched / unmatched / "
+         "authenticated / credential-less answers incl. 403, local revocation, pair change, restart, send gate), whose 53 modelled statements are checked "
+         "verbatim against conncheck.c / component.h / stunagent.c on every run: for EVERY event sequence the pair stays usable while answered; FAILED and a "
+         "closed send gate follow within 30 s + one check interval of the last answer; an authenticated 403 acts at once; after local revocation every check is "
+         "answered 403; the transaction table stays bounded, so the keepalive timer never stops and the pair is never silent for longer than its period, for "
+         "every loss pattern and run length (the pre-fix counter-example of e9d3c51 is kept as a regression theorem). Every in-scope simulator trace is replayed "
+         "through the model inside Coq and compared event by event. Composition with nomination, several pairs per component, reliable mode and several "
+         "streams is NOT proved: real agents run in the deterministic simulator over blackout start/duration/direction, revocation moment (before selection, "
+         "during checks, READY), idle sessions up to 14 min, 45-60 min lossy sessions, ICE restarts, a second stream removed mid-session, with the expiry "
+         "interval of the theorems, the 403 rules and the keepalive period as oracles.",
+    note="trusted: Coq kernel, the text extractors (lib/tabgen.py::consent_tables, props/c13_session.py::consent_session_shape), the hand-written session "
+         "model (tied by verbatim statements + per-trace replay, not by proof), sim.c. Partial: the composition with the rest of the agent is counterexample search.",
+    technique="Coq proofs over a timer kernel and a session model of the selected pair (statements regenerated/checked from source, traces replayed in Coq) + deterministic simulation with timing oracles")
+FINISH = dict(level="proof", trusted=["lib/tabgen.py::consent_tables (constants + statement shape check)", "props/c13_session.py (53 verbatim statements; trace -> model events)",
+                                      "coq/Agent/ConsentSessionModel.v (hand-written, tied by statements and per-trace replay)", "harness/sim.c virtual clock", "python timing oracles"],
               rule="scenarios: loss-free convergence with fixed one-way delay 1..50 ms, then blackout (one or both directions, 8 s .. forever, starting 0..11 s after READY), "
                    "local revocation (before signalling, during checks, 4..21 s after READY), or idle for up to 14 minutes; 1..2 components; consent freshness per agent; probes via the send API",
               assumptions=["answers counted by the oracle: STUN success responses delivered on the selected pair", "keepalive slack 60 ms (Ta pacing across components)"])
